@@ -86,6 +86,47 @@ def show_table(td):
     return show_list(lambda e: show_str(e[0]) + '=' + show_names(e[1]), sorted(td.items()))
 
 
+# byte encoding of the same observations for the digests (h_str, h_int, h_list, h_opt of Run/C13Spec.v)
+def e_str(x):
+    return x.encode('latin-1') + b'\xff'
+
+
+def e_int(n):
+    return n.to_bytes(8, 'big')
+
+
+def e_list(f, l):
+    return b''.join(f(x) for x in l) + b'\xfe'
+
+
+def e_opt(f, o):
+    return b'\xfd' if o is None else b'\xfc' + f(o)
+
+
+def e_names(l):
+    return e_list(e_str, l)
+
+
+def e_light(v):
+    return e_str(v[0]) + e_str(v[1]) + e_int(v[2])
+
+
+def pub_enc(A, names, count, light_of, gnames, glights, pnames, plights, ok, fail):
+    return (e_names(names) + e_int(count)
+            + e_list(lambda n: e_opt(e_light, light_of(n)), A['names'])
+            + e_names(gnames) + e_list(lambda g: e_opt(e_names, glights(g)), A['groups'])
+            + e_names(pnames) + e_list(lambda g: e_opt(e_names, plights(g)), A['locs'])
+            + e_int(ok) + e_int(fail))
+
+
+def e_table(td):
+    return e_list(lambda e: e_str(e[0]) + e_names(e[1]), sorted(td.items()))
+
+
+def digest_bytes(b):
+    return int.from_bytes(b, 'big') % HM
+
+
 # Coq terms
 def coq_report(r):
     return '(%s, (%s, %s))' % (coq_str(r[0]), coq_str(r[1]), coq_str(r[2]))
@@ -244,7 +285,9 @@ def raw_key(env, ls):
             ls._num_successful_discovers, ls._num_failed_discovers, env.clock)
 
 
-def real_pub(env, A, ls):
+def real_obs(env, A, ls):
+    """All public getters (and the private tables) of the real LightSet, as
+    (full text, pub text, full bytes, pub bytes)."""
     def light_of(n):
         l = ls.get_light(n)
         if l is None:
@@ -257,10 +300,23 @@ def real_pub(env, A, ls):
 
     def opt_list(x):
         return None if x is None else list(x)
-    return pub_text(A, list(ls.get_light_names()), ls.get_light_count(), light_of,
-                    list(ls.get_group_names()), lambda g: opt_list(ls.get_group_lights(g)),
-                    list(ls.get_location_names()), lambda g: opt_list(ls.get_location_lights(g)),
-                    ls.get_successful_discovers(), ls.get_failed_discovers())
+    lights = {n: light_of(n) for n in A['names']}
+    groups = {g: opt_list(ls.get_group_lights(g)) for g in A['groups']}
+    locs = {g: opt_list(ls.get_location_lights(g)) for g in A['locs']}
+    args = (A, list(ls.get_light_names()), ls.get_light_count(), lights.get,
+            list(ls.get_group_names()), groups.get, list(ls.get_location_names()), locs.get,
+            ls.get_successful_discovers(), ls.get_failed_discovers())
+    pub_t, pub_b = pub_text(*args), pub_enc(*args)
+    ordered = [(l.get_name(), (l.get_group(), l.get_location(), birth_of(l))) for l in ls.get_lights()]
+    names = list(ls._light_names)
+    gt = {k: list(v) for k, v in ls._groups.items()}
+    lt = {k: list(v) for k, v in ls._locations.items()}
+    ok, fail = ls._num_successful_discovers, ls._num_failed_discovers
+    st_t = ('L' + show_list(lambda e: show_str(e[0]) + ',' + show_light(e[1]), ordered)
+            + 'N' + show_names(names) + 'G' + show_table(gt) + 'P' + show_table(lt) + 'C' + str(ok) + ',' + str(fail))
+    st_b = (e_list(lambda e: e_str(e[0]) + e_light(e[1]), ordered) + e_names(names) + e_table(gt) + e_table(lt)
+            + e_int(ok) + e_int(fail))
+    return (st_t + '/' + pub_t, pub_t, st_b + pub_b, pub_b)
 
 
 def real_state_text(ls):
@@ -299,7 +355,6 @@ def python_sanity(ls):
 
 SMALL = {'names': ['a', 'b', 'c'], 'groups': ['g', 'h'], 'locs': ['l', 'm']}
 TINY = {'names': ['a', 'b'], 'groups': ['g', 'h'], 'locs': ['l', 'm']}
-MID = {'names': ['a', 'b', 'c'], 'groups': ['g', 'h'], 'locs': ['l']}
 # code-point order traps: upper < lower, prefix < extension, digits, space, punctuation
 WIDE = {'names': ['a', 'B', 'ab', 'b', 'a b', 'lamp-10', 'lamp-2', "it's", 'x;y'],
         'groups': ['g', 'G', 'h', 'x', 'g 2'],
@@ -420,8 +475,8 @@ def report_oracle_diff(ctx, A, hist, step_idx, real, want):
 # running one history on the real LightSet
 
 def run_real(env, A, hist, states=None, start=None):
-    """Observations after every symbol: list of (full text, pub text); an exception escaping the
-    implementation ends the list with ('!ExcName: msg', same)."""
+    """Observations after every symbol: list of (full text, pub text, full bytes, pub bytes); an
+    exception escaping the implementation ends the list with '!ExcName: msg' texts."""
     if start is None:
         ls = env.new_set()
         env.clock = 0
@@ -431,13 +486,12 @@ def run_real(env, A, hist, states=None, start=None):
     for y in hist:
         try:
             env.apply(ls, y)
-            pub = real_pub(env, A, ls)
-            full = real_state_text(ls) + '/' + pub
+            o = real_obs(env, A, ls)
         except Exception as ex:  # the property allows no exception here
             t = '!%s: %s' % (type(ex).__name__, ex)
-            out.append((t, t))
+            out.append((t, t, e_str(t), e_str(t)))
             break
-        out.append((full, pub))
+        out.append(o)
         if states is not None:
             bad = python_sanity(ls)
             if bad:
@@ -463,11 +517,11 @@ def model_texts_for(A, hists):
     return [s for strs in res for s in strs]
 
 
-def explain_history(ctx, A, hist, real_obs, do_model):
+def explain_history(ctx, A, hist, obs_list, do_model):  
     """A history whose digest differed: find the step, classify."""
     want = spec_texts_for(A, [hist])[0].split('@')[:-1]
     explained = False
-    for i, (full, pub) in enumerate(real_obs):
+    for i, (full, pub, _, _) in enumerate(obs_list):
         if pub.startswith('!'):
             ctx.counterexample('C13/step-raises-%s-in-%s' % (pub[1:].split(':')[0], last_kind(hist[:i + 1])),
                                'after %s the real LightSet raises %s' % (describe(hist[:i + 1]), pub[1:]),
@@ -479,7 +533,7 @@ def explain_history(ctx, A, hist, real_obs, do_model):
             break
     if do_model:
         mod = model_texts_for(A, [hist])[0].split('@')[:-1]
-        for i, (full, pub) in enumerate(real_obs):
+        for i, (full, pub, _, _) in enumerate(obs_list):
             if i < len(mod) and full != mod[i]:
                 b = {'history': describe(hist[:i + 1]), 'implementation': full, 'model': mod[i]}
                 ctx.broken_tie('correspondence', 'LightSet state vs Lights/Directory.v', b)
@@ -502,26 +556,38 @@ def exhaustive(ctx, env, A, symtab, depth, tag, states):
     parents = []                       # (prefix, digest of full texts, digest of pub texts, [full...], [pub...])
     n_nodes = 0
     per_level = []
+    cache = {}                         # private state + clock -> its texts (they are functions of it)
     for level in range(depth):
         nxt = []
         for (ls, clock, prefix) in frontier:
-            fulls, pubs = [], []
+            fulls, pubs, fb, pb = [], [], [], []
             for y in symtab:
                 c = clone_set(env, ls)
-                _, obs = run_real(env, A, [y], states=None, start=(c, clock))
-                full, pub = obs[0]
-                fulls.append(full)
-                pubs.append(pub)
+                env.clock = clock
                 n_nodes += 1
-                if pub.startswith('!'):
+                try:
+                    env.apply(c, y)
+                    k = raw_key(env, c)
+                    hit = cache.get(k)
+                    if hit is None:
+                        hit = cache[k] = real_obs(env, A, c)
+                        bad = python_sanity(c)
+                        states.setdefault(('!' + bad) if bad else state_key(c), (A, prefix + [y]))
+                except Exception as ex:  # the property allows no exception here
+                    t = '!%s: %s' % (type(ex).__name__, ex)
+                    fulls.append(t)
+                    pubs.append(t)
+                    fb.append(e_str(t))
+                    pb.append(e_str(t))
                     continue
-                bad = python_sanity(c)
-                states.setdefault(('!' + bad) if bad else state_key(c), (A, prefix + [y]))
-                k = raw_key(env, c)
+                fulls.append(hit[0])
+                pubs.append(hit[1])
+                fb.append(hit[2])
+                pb.append(hit[3])
                 if k not in seen:
                     seen.add(k)
                     nxt.append((c, env.clock, prefix + [y]))
-            parents.append((prefix, digest(''.join(f + '@' for f in fulls)), digest(''.join(p + '@' for p in pubs)), fulls, pubs))
+            parents.append((prefix, digest_bytes(b''.join(fb)), digest_bytes(b''.join(pb)), fulls, pubs))
         per_level.append(len(frontier))
         frontier = nxt
     ctx.count(n_nodes)
@@ -627,7 +693,7 @@ def random_histories(ctx, env, n, states):
             lens[len(hist)] = lens.get(len(hist), 0) + 1
             n_steps += len(obs)
             recs.append((hist, obs))
-            pubs = [p for _, p in obs]
+            pubs = [o[1] for o in obs]
             if len(set(pubs)) > 2:
                 ctx.nontriv(('R', describe(hist)))
         for k, v in local_states.items():
@@ -636,12 +702,12 @@ def random_histories(ctx, env, n, states):
         def bodies(fn, which):
             out = []
             for part in chunks(list(enumerate(recs)), 40 if len(recs) < 2000 else 250):
-                cases = coq_list(['(%d, (%s, %d))' % (i, coq_syms(h), digest(''.join(o[which] + '@' for o in obs))) for i, (h, obs) in part])
+                cases = coq_list(['(%d, (%s, %d))' % (i, coq_syms(h), digest_bytes(b''.join(o[which] for o in obs))) for i, (h, obs) in part])
                 out.append(head + 'Eval vm_compute in (%s A %s).\n' % (fn, cases))
             return out
-        bad = set(i for strs in coq_eval('c13rs', IMP_SPEC, bodies('spec_hist_check', 1)) for i in parse_ids(strs[0]))
+        bad = set(i for strs in coq_eval('c13rs', IMP_SPEC, bodies('spec_hist_check', 3)) for i in parse_ids(strs[0]))
         if ctx.model_runnable:
-            bad |= set(i for strs in coq_eval('c13rm', IMP_MODEL, bodies('model_hist_check', 0)) for i in parse_ids(strs[0]))
+            bad |= set(i for strs in coq_eval('c13rm', IMP_MODEL, bodies('model_hist_check', 2)) for i in parse_ids(strs[0]))
         for i in sorted(bad)[:5]:
             explain_history(ctx, A, recs[i][0], recs[i][1], ctx.model_runnable)
         if recs:
@@ -987,11 +1053,10 @@ def run(ctx):
     try:
         # E
         if thorough:
-            exhaustive(ctx, env, SMALL, symtab_for(SMALL), 3, 'small3', states)
+            exhaustive(ctx, env, SMALL, symtab_for(SMALL), 4, 'small4', states)
             exhaustive(ctx, env, TINY, symtab_for(TINY, both_orders=True), 4, 'tiny4', states)
         else:
-            exhaustive(ctx, env, SMALL, symtab_for(SMALL), 2, 'small2', states)
-            exhaustive(ctx, env, MID, symtab_for(MID), 3, 'mid3', states)
+            exhaustive(ctx, env, SMALL, symtab_for(SMALL), 3, 'small3', states)
             exhaustive(ctx, env, TINY, symtab_for(TINY, both_orders=True), 3, 'tiny3', states)
         ctx.exhaustive = True
         # R
@@ -1024,7 +1089,7 @@ def replay(ctx, payload):
             inv = coq_eval('c13rw', IMP_SPEC, ['Eval vm_compute in (inv_whys [(0, %s)]).\n' % coq_dir(ls)])[0][0] if not obs[-1][1].startswith('!') else '0:raised@'
             print('history: %s' % describe(hist))
             ok = True
-            for i, ((full, pub), w) in enumerate(zip(obs, want)):
+            for i, ((full, pub, _, _), w) in enumerate(zip(obs, want)):
                 same = pub == w
                 ok = ok and same
                 print(' step %d %s\n   real          %s\n   specification %s' % (i + 1, 'agrees' if same else 'DIFFERS', pub, w))
